@@ -138,7 +138,43 @@ type world struct {
 	code     [][2]wazero.CompiledModule // [rt][variant]
 	stdout   [3]*bytes.Buffer
 	mcs      [3]wazero.ModuleConfig
-	slotOf   [3]int // mount/stdout slot of instance j (loneSlot for a lone world)
+	slotOf   [3]int       // mount/stdout slot of instance j (loneSlot for a lone world)
+	hostSaw  []api.Module // the api.Module values handed to env.h_refl / env.h_gomod during the current step
+}
+
+// buildEnv instantiates the host module "env" that every guest instance of the runtime imports. Its functions are
+// stateless; the two that receive an api.Module use ONLY that value to reach "the caller": they read the caller's
+// store cell, write into the caller's memory / global g1, and the harness records which module they were handed.
+func (w *world) buildEnv(rt wazero.Runtime) {
+	b := rt.NewHostModuleBuilder("env")
+	// reflection, (ctx, api.Module, i32)
+	b.NewFunctionBuilder().WithFunc(func(_ context.Context, m api.Module, v uint32) uint32 {
+		w.hostSaw = append(w.hostSaw, m)
+		x, _ := m.Memory().ReadUint32Le(aStore)
+		m.Memory().WriteUint32Le(aHostW1, v+0x100)
+		if g, ok := m.ExportedGlobal("g1").(api.MutableGlobal); ok {
+			g.Set(g.Get() + 0x10000)
+		}
+		return x * 3
+	}).Export("h_refl")
+	// reflection, (ctx, i32) and (i32): no module, pure
+	b.NewFunctionBuilder().WithFunc(func(_ context.Context, v uint32) uint32 { return v*5 + 1 }).Export("h_ctx")
+	b.NewFunctionBuilder().WithFunc(func(v uint32) uint32 { return v*7 + 2 }).Export("h_none")
+	// api.GoModuleFunc
+	b.NewFunctionBuilder().WithGoModuleFunction(api.GoModuleFunc(func(_ context.Context, m api.Module, stack []uint64) {
+		w.hostSaw = append(w.hostSaw, m)
+		v := uint32(stack[0])
+		x, _ := m.Memory().ReadUint32Le(aStore)
+		m.Memory().WriteUint32Le(aHostW2, v+0x200)
+		stack[0] = uint64(x * 11)
+	}), []api.ValueType{api.ValueTypeI32}, []api.ValueType{api.ValueTypeI32}).Export("h_gomod")
+	// api.GoFunc
+	b.NewFunctionBuilder().WithGoFunction(api.GoFunc(func(_ context.Context, stack []uint64) {
+		stack[0] = uint64(uint32(stack[0])*13 + 3)
+	}), []api.ValueType{api.ValueTypeI32}, []api.ValueType{api.ValueTypeI32}).Export("h_go")
+	if _, err := b.Instantiate(ctx); err != nil {
+		fatalf("env host module: %v", err)
+	}
 }
 
 func rtConfig(engine string) wazero.RuntimeConfig {
@@ -192,6 +228,7 @@ func newWorld(c cfg, dirs *hostDirs, loneSlot int) *world {
 		if _, err := wasi_snapshot_preview1.Instantiate(ctx, rt); err != nil {
 			fatalf("wasi: %v", err)
 		}
+		w.buildEnv(rt)
 		var cm [2]wazero.CompiledModule
 		for v := 0; v < 2; v++ {
 			if !need[v] {
@@ -241,7 +278,9 @@ func newWorld(c cfg, dirs *hostDirs, loneSlot int) *world {
 	} else {
 		for j := range c.Variants {
 			s := w.slotOf[j]
-			w.mcs[j] = wazero.NewModuleConfig().WithName("").WithStdout(w.stdout[s]).
+			// distinct names (unique per runtime); results never contain them: the harness compares the name the host
+			// function sees (m.Name()) with the caller's
+			w.mcs[j] = wazero.NewModuleConfig().WithName(fmt.Sprintf("c11-inst%d", s)).WithStdout(w.stdout[s]).
 				WithFSConfig(wazero.NewFSConfig().WithDirMount(dirs.slots[s], "/"))
 		}
 	}
@@ -448,7 +487,25 @@ func (w *world) runWord(word []step) wordResult {
 		before := w.stdout[0].Len()
 		r := "not-instantiated"
 		if in.instErr == "" {
+			w.hostSaw = w.hostSaw[:0]
 			r = in.call(in.fn(s.Op))
+			// which module were the module-taking host functions handed as "the caller"?
+			for _, m := range w.hostSaw {
+				who := ";host-saw:UNKNOWN-MODULE"
+				if m == in.mod {
+					who = ";host-saw:caller"
+				} else {
+					for j, o := range insts {
+						if o != nil && o.mod == m {
+							who = fmt.Sprintf(";host-saw:OTHER-INSTANCE(%d)", j)
+						}
+					}
+				}
+				if m.Name() != in.mod.Name() {
+					who += ",name-of-another-module"
+				}
+				r += who
+			}
 		}
 		res.results[s.I] = append(res.results[s.I], r)
 		if w.c.Shared {
